@@ -59,14 +59,14 @@ func (g *gen) Generate(typs []types.Type) error {
 	if !ok {
 		return fmt.Errorf("%s, the first argument, %s, is not of type map", g.GetFuncName(typ), typ)
 	}
-	return g.genFuncFor(mapType)
+	return g.genFuncFor(typ, mapType)
 }
 
-func (g *gen) genFuncFor(typ *types.Map) error {
+func (g *gen) genFuncFor(mapTyp types.Type, typ *types.Map) error {
 	p := g.printer
-	g.Generating(typ)
-	name := g.GetFuncName(typ)
-	typeStr := g.TypeString(typ)
+	g.Generating(mapTyp)
+	name := g.GetFuncName(mapTyp)
+	typeStr := g.TypeString(mapTyp)
 	keyType := typ.Key()
 	keyTypeStr := g.TypeString(keyType)
 	p.P("")
